@@ -536,6 +536,12 @@ func (v *visitor) visitCollectClause(c fql.ICollectClauseContext, scope *scope, 
 				projectionIdentifier := projectionCtx.Identifier(0)
 
 				if projectionIdentifier != nil {
+					// the default projection { <loop variable>: <loop variable> } reads the
+					// loop variable: it must still be visible (an earlier COLLECT hides it)
+					if !scope.HasVariable(valVarName) {
+						return nil, core.Error(ErrVariableNotFound, valVarName)
+					}
+
 					varExp, err := expressions.NewVariableExpression(v.getSourceMap(projectionCtx), valVarName)
 					if err != nil {
 						return nil, err
